@@ -3,23 +3,23 @@
 
   Models: Model/AspifOut.lean (writer), Model/AspifIn.lean (reader, over the abstract character stream).
 
-  FULL STATEMENT (C01_write_read):
-      p.Valid → AspifIn.read (AspifOut.write (calls p)) = { calls := calls (dropZeroWeights p), err := none }
-  for every program `p` (any directives, any number of steps, arguments in the documented ranges), in both
-  read modes, wherever buffer boundaries fall.
+  FULL STATEMENT, PROVED (`C01_write_read`):
+      WFProg inc steps → AspifIn.read (AspifOut.write (progCalls inc steps)) = { calls := progCalls inc (steps.map (·.map norm)), err := none }
+  for every program (any directives of any kind, any number of steps — several only when incremental —, arguments anywhere in
+  the documented ranges `WFw`, lists and strings of any length < 2^32, strings of any bytes but NUL); `norm` drops the
+  literals of weight 0 of weight rules and minimize statements, the one permitted difference.
+  `C01_read_write_read`: the "equivalently" form for texts produced by the writer: writing what was read and reading it again
+  reproduces the same calls (`norm` is idempotent and preserves `WFw`).
 
-  PROVED SO FAR: the token level on which that statement rests —
-    * `C01_number_roundtrip`: any amount of blanks, the decimal text the writer produces for an integer `v`
-      (|v| < 2^63), followed by a non-digit, is read by the reader's integer matcher as exactly `v`,
-      leaving exactly what follows;
-    * `C01_blanks_skipped`: blanks (incl. CR, LF, CRLF) before a token are skipped completely and nothing else;
-    * buffer independence of every token operation is C09 (`C09_transparent`), cited not re-proved.
-  MISSING: the composition over directives/steps (`C01_write_read` itself) — until it is proved, the
-  statement above is decided by the correspondence run (writer model == AspifOutput bytes, reader model ==
-  AspifInput calls) together with the direct round-trip oracle on the implementation.
+  The proof composes (Lemmas/AspifRoundTrip*.lean): number round trip (Lemmas/Decimal.lean) → fields → counted lists /
+  length-prefixed strings → each directive kind → the directive loop of a step → the step loop → header.
+  Buffer independence (the reader runs on `BufferedStream`, the theorem on the abstract character stream) is C09
+  (`C09_transparent`), cited not re-proved; both read modes differ only in who drives the step loop (checked by the
+  correspondence run in both modes).
+  Token-level statements kept as theorems of their own:
+    * `C01_number_roundtrip`, `C01_pos_roundtrip`, `C01_blanks_skipped`.
 -/
-import PotasscoVerif.Lemmas.Decimal
-import PotasscoVerif.Model.AspifIn
+import PotasscoVerif.Lemmas.AspifRoundTrip2
 namespace PotasscoVerif.C01
 open PotasscoVerif.AspifOut PotasscoVerif.CharStream PotasscoVerif.Decimal
 open PotasscoVerif.BufferedStream (isWs I64MAX)
@@ -45,6 +45,48 @@ theorem C01_pos_roundtrip (a : AS) (n : Nat) (ws k : List Nat) (hr : a.rest = ws
   have hc : ((n : Int) ≤ 4294967295) := by omega
   simp [hc, Functor.map, Except.map]
 
+/-! ### the round trip -/
+open PotasscoVerif.AspifRT in
+/-- **C01**: read ∘ write = identity up to weight-0 literals, for every well-formed program. -/
+theorem C01_write_read (inc : Bool) (steps : List (List Call)) (h : WFProg inc steps) :
+    AspifIn.read (write (progCalls inc steps)) = { calls := progCalls inc (steps.map (fun st => st.map norm)), err := none } :=
+  write_read inc steps h
+
+open PotasscoVerif.AspifRT in
+theorem norm_idem (c : Call) : norm (norm c) = norm c := by
+  cases c <;> simp [norm]
+
+open PotasscoVerif.AspifRT in
+theorem norm_wf (c : Call) (h : WFw c) : WFw (norm c) := by
+  cases c with
+  | sumRule ht head b ws =>
+    obtain ⟨h1, h2, h3, h4, h5, h6⟩ := h
+    exact ⟨h1, h2, h3, h4, Nat.le_trans (List.length_filter_le _ _) h5, fun p hp => h6 p (List.mem_filter.mp hp).1⟩
+  | minimize p ws =>
+    obtain ⟨h1, h2, h3⟩ := h
+    exact ⟨h1, Nat.le_trans (List.length_filter_le _ _) h2, fun p hp => h3 p (List.mem_filter.mp hp).1⟩
+  | _ => exact h
+
+open PotasscoVerif.AspifRT in
+theorem norm_dir (c : Call) (h : isDirective c = true) : isDirective (norm c) = true := by
+  cases c <;> first | (cases h; done) | rfl
+
+open PotasscoVerif.AspifRT in
+/-- the "equivalently" form: what was read from the writer's text, written and read again, is the same call sequence -/
+theorem C01_read_write_read (inc : Bool) (steps : List (List Call)) (h : WFProg inc steps) :
+    AspifIn.read (write (AspifIn.read (write (progCalls inc steps))).calls) = AspifIn.read (write (progCalls inc steps)) := by
+  rw [C01_write_read inc steps h]
+  have h2 : WFProg inc (steps.map (fun st => st.map norm)) := by
+    refine ⟨by simpa using h.nonempty, by simpa using h.single, ?_⟩
+    intro st hst c hc
+    simp only [List.mem_map] at hst
+    obtain ⟨st0, hst0, rfl⟩ := hst
+    simp only [List.mem_map] at hc
+    obtain ⟨c0, hc0, rfl⟩ := hc
+    exact ⟨norm_dir c0 (h.calls st0 hst0 c0 hc0).1, norm_wf c0 (h.calls st0 hst0 c0 hc0).2⟩
+  rw [C01_write_read inc _ h2]
+  simp [List.map_map, Function.comp_def, norm_idem]
+
 /-! non-vacuity / sanity: a complete two-step program with every directive kind round-trips in the model -/
 
 def exProgram : List Call :=
@@ -57,5 +99,24 @@ def exProgram : List Call :=
    .endStep, .beginStep, .rule 0 [7] [], .endStep]
 
 example : AspifIn.read (write exProgram) = { calls := exProgram, err := none } := by decide +kernel
+
+/-- the hypotheses of `C01_write_read` are met by that program (every directive kind, extreme values, two steps) -/
+def exSteps : List (List Call) :=
+  [[.rule 1 [1, 2147483647] [-2, 3], .sumRule 0 [] (-2147483648) [(1, 2), (-2, 2147483647), (3, 0)],
+    .minimize (-1) [(1, -5), (-3, 7)], .project [], .output [97, 32, 10, 98] [1], .external 3 2, .assume [-1],
+    .heuristic 4 5 (-7) 2147483647 [2], .acycEdge 0 2147483647 [], .theoryNum 4294967295 (-3),
+    .theorySym 0 [120, 255], .theoryCompound 1 (-3) [0, 4294967295], .theoryElement 2 [1] [-1],
+    .theoryAtom 0 1 [2] none, .theoryAtom 5 1 [] (some (3, 4294967295))], [.rule 0 [7] []]]
+
+open PotasscoVerif.AspifRT in
+example : WFProg true exSteps := by
+  refine ⟨by decide, by decide, ?_⟩
+  intro st hst c hc
+  simp only [exSteps, List.mem_cons, List.not_mem_nil, or_false] at hst
+  rcases hst with rfl | rfl
+  all_goals
+    simp only [List.mem_cons, List.not_mem_nil, or_false] at hc
+    rcases hc with rfl | rfl | rfl | rfl | rfl | rfl | rfl | rfl | rfl | rfl | rfl | rfl | rfl | rfl | rfl <;>
+      (refine ⟨rfl, ?_⟩; simp [WFw, atomOk, litOk, i32, lenOk, U32MAX])
 
 end PotasscoVerif.C01
